@@ -112,6 +112,9 @@ class Exec(object):
             if vars_: f = ForAll(vars_, f)
         return f
 
+    def has_bound_vars(self):
+        return any(vs for vs, _ in self.binders)
+
     def oblig(self, p, name, kind, goal, line=None):
         if self.spec_mode: return
         g = self._wrap(p, goal)
@@ -248,8 +251,10 @@ class Exec(object):
         if self.static_isinstance(p, e.test) is not None:
             return self.ev(p, e.body if self.static_isinstance(p, e.test) else e.orelse)
         c = self.truth(self.ev(p, e.test))
-        a = self.under(p, c, lambda: self.ev(p, e.body))
-        b = self.under(p, Not(c), lambda: self.ev(p, e.orelse))
+        if self.is_empty_literal(e.body):
+            b = self.under(p, Not(c), lambda: self.ev(p, e.orelse)); a = self.ev_hint(p, e.body, b.t)
+        else:
+            a = self.under(p, c, lambda: self.ev(p, e.body)); b = self.under(p, Not(c), lambda: self.ev_hint(p, e.orelse, a.t))
         a, b = self.unify(a, b)
         return SV(a.t, If(c, a.z, b.z))
 
@@ -542,7 +547,7 @@ class Exec(object):
 
     def e_DictComp(self, p, e):
         g = self.gen_of(p, e)
-        if self.binders: raise Unsupported('dict comprehension under binders')
+        if self.has_bound_vars(): raise Unsupported('dict comprehension under binders')
         k, v = g.elem
         mt = MAP(k.t, v.t); m = fresh('dictcomp', mt); y = fresh_z('y', sort_of(k.t))
         grd = And(g.guards) if g.guards else BoolVal(True)
@@ -555,7 +560,7 @@ class Exec(object):
         return m
 
     def set_of_gen(self, p, g):
-        if self.binders: raise Unsupported('set comprehension under binders')
+        if self.has_bound_vars(): raise Unsupported('set comprehension under binders')
         el = g.elem
         r = fresh('setcomp', SET(el.t)); y = fresh_z('y', sort_of(el.t))
         grd = And(g.guards) if g.guards else BoolVal(True)
@@ -563,7 +568,7 @@ class Exec(object):
         return r
 
     def list_of_gen(self, p, g):
-        if self.binders: raise Unsupported('list comprehension under binders')
+        if self.has_bound_vars(): raise Unsupported('list comprehension under binders')
         el = g.elem; r = fresh('listcomp', LIST(el.t))
         if g.ordered_list is not None and g.ordered_list[0] == 'list':
             _, src, i = g.ordered_list
@@ -614,6 +619,11 @@ class Exec(object):
             c = self.reg.find(n, self.c)
             if c is not None: return self.call_contract(p, c, e)
             raise Unsupported('call of %s (line %d)' % (n, e.lineno))
+        if isinstance(f, ast.Attribute) and f.attr == 'union' and len(e.args) == 1 and isinstance(e.args[0], ast.Starred) \
+                and isinstance(f.value, ast.Call) and isinstance(f.value.func, ast.Name) and f.value.func.id == 'set' and not f.value.args:
+            inner = e.args[0].value
+            g = self.gen_of(p, inner) if isinstance(inner, (ast.ListComp, ast.GeneratorExp, ast.SetComp)) else self.ev(p, inner)
+            return self.big_union(p, g, e)
         if isinstance(f, ast.Attribute):
             # module-qualified calls
             if isinstance(f.value, ast.Name) and f.value.id in ('copy',) and f.attr == 'deepcopy':
@@ -649,6 +659,21 @@ class Exec(object):
         for a, v in zip(lam.args.args, args): p.env[a.arg] = v
         try: return self.ev(p, lam.body)
         finally: p.env.clear(); p.env.update(saved)
+
+    def big_union(self, p, g, e):
+        """set().union(*[S(x) for x in ...]) : y in result <=> exists x. guard and y in S(x)"""
+        if self.has_bound_vars(): raise Unsupported('big union under binders')
+        if isinstance(g, Gen):
+            if g.elem.t.kind != 'set': raise Unsupported('big union of %s' % g.elem.t)
+            r = fresh('bigunion', g.elem.t); y = fresh_z('y', sort_of(g.elem.t.args[0]))
+            grd = And(g.guards) if g.guards else BoolVal(True)
+            self.assume(p, ForAll([y], Select(r.z, y) == (Exists(g.vars, And(grd, Select(g.elem.z, y))) if g.vars else And(grd, Select(g.elem.z, y)))))
+            return r
+        if g.t.kind == 'list' and g.t.args[0].kind == 'set':
+            r = fresh('bigunion', g.t.args[0]); y = fresh_z('y', sort_of(g.t.args[0].args[0])); i = fresh_z('i', z3.IntSort())
+            self.assume(p, ForAll([y], Select(r.z, y) == Exists([i], And(0 <= i, i < list_len(g), Select(Select(list_arr(g), i), y)))))
+            return r
+        raise Unsupported('big union over %s' % g.t)
 
     # --- builtins
     def b_len(self, p, e):
@@ -712,7 +737,7 @@ class Exec(object):
                 x = fresh('elem', s.t.args[0]); self.assume(p, Select(s.z, x.z)); return x
         g = self.ev(p, a)
         if isinstance(g, Gen):
-            if self.binders: raise Unsupported('next() under binders')
+            if self.has_bound_vars(): raise Unsupported('next() under binders')
             grd = And(g.guards) if g.guards else BoolVal(True)
             self.oblig(p, 'next-nonempty:%d' % e.lineno, 'safety', Exists(g.vars, grd) if g.vars else grd, e.lineno)
             # arbitrary element satisfying the guard (the first one in CPython; every choice is covered)
@@ -954,14 +979,15 @@ class Exec(object):
             fn = c.result_fn(key, [sort_of(args[n].t) for n in c.params])
             res = SV(c.result_type, fn(*[args[n].z for n in c.params]))
         else:
-            if self.binders: raise Unsupported('call of non-pure %s under binders' % c.name)
+            if self.has_bound_vars(): raise Unsupported('call of non-pure %s under binders' % c.name)
             res = fresh(c.name + '_res', c.result_type)
         post_env = dict(args)
         old_env = dict(args)
         for n in c.modifies:
-            if self.binders: raise Unsupported('mutating call under binders')
+            if self.has_bound_vars(): raise Unsupported('mutating call under binders')
             post_env[n] = fresh(n + '_after', args[n].t)
         q = Path(); q.env = post_env; q.old = old_env; q.pc = p.pc
+        for g_, src in c.ghost.items(): q.ghost[g_] = self.ev_spec_in(p, src, dict(old_env))
         saved_res, saved_mode = self.result, self.spec_mode
         self.result, self.spec_mode = res, True
         try:
